@@ -711,7 +711,7 @@ def truncation_mask(S, tol=0, tol_block=0,
             Smask._data[slice(*sl.slcs[0])] = False
 
     temp_data = S._data * Smask.data
-    above_tol = temp_data > tol * S.config.backend.max_abs(temp_data)
+    above_tol = (temp_data > tol * S.config.backend.max_abs(temp_data)) * Smask.data  # only elements kept in blocks compete
     D_tol = S.config.backend.sum_elements(above_tol).item()
     D_total = min(D_total, D_tol)
 
@@ -719,7 +719,9 @@ def truncation_mask(S, tol=0, tol_block=0,
         Smask._data[:] = False
         return Smask
 
-    inds = S.config.backend.argsort(temp_data)
+    # elements removed in blocks rank below all the kept ones; (weights can be negative, e.g., in eigh_with_truncation for which='SR')
+    floor = S.config.backend.max_abs(S._data) + 1
+    inds = S.config.backend.argsort(temp_data - floor * S.config.backend.bitwise_not(Smask.data))
 
     if truncate_multiplets and D_total < len(inds):
         gap = -1
